@@ -96,23 +96,27 @@ type Exec struct {
 	output      map[string][]Value // captured output logs (writers)
 
 	// per job
-	overrides  map[string]string
-	harnessPkg *ssa.Package
-	funcsSeen  map[string]bool
-	maxForks   int
-	unwind     int
-	qcache     map[[2]int]Verdict
-	feasQ      int
-	panicOblig bool // record implicit-panic obligations
-	globalW    map[string]bool
-	globalInit map[string]bool // written only by constant stores inside sync.Once.Do
-	inOnce     int
-	globalR    map[string]bool
-	loopFuncs  map[string]bool
-	inStep     int
-	identSeen  []*Term
-	observed   []Observation
-	nondetSeq  int
+	overrides        map[string]string
+	harnessPkg       *ssa.Package
+	funcsSeen        map[string]bool
+	maxForks         int
+	unwind           int
+	qcache           map[[2]int]Verdict
+	feasQ            int
+	panicOblig       bool // record implicit-panic obligations
+	globalW          map[string]bool
+	globalInit       map[string]bool // written only by constant stores inside sync.Once.Do
+	globalAtomW      map[string]bool // package variables updated by atomic Store / Add whose result is discarded
+	globalAtomR      map[string]bool // package variables read atomically
+	callResultUnused bool
+
+	inOnce    int
+	globalR   map[string]bool
+	loopFuncs map[string]bool
+	inStep    int
+	identSeen []*Term
+	observed  []Observation
+	nondetSeq int
 
 	// happens-before race detection (vector clocks) over recorded goroutines
 	cmd          cmdEnv
@@ -732,6 +736,7 @@ func (e *Exec) step(fr *frame, ins ssa.Instruction) {
 	case *ssa.UnOp:
 		fr.env[x] = e.unop(fr, x)
 	case *ssa.Call:
+		e.callResultUnused = x.Referrers() != nil && len(*x.Referrers()) == 0
 		fr.env[x] = e.doCall(fr, x.Common())
 	case *ssa.ChangeType:
 		fr.env[x] = e.get(fr, x.X)
